@@ -324,6 +324,37 @@ def run(ctx):
             do_edit(c["s"].encode("latin-1"), c["t"].encode("latin-1"), as_str=c.get("as_str", False), bands=c.get("bands"))
         elif k == "enum":
             do_enum(c["ploidy"], c["alleles"])
+        elif k == "reuse":
+            do_reuse(c["chain"], c["queries"])
+
+    def do_reuse(chain, queries):
+        """state restore INTO AN OBJECT THAT HAS BEEN USED: one Genotype object takes the states of the genotypes of
+        `chain` one after the other, with index/hash/state/vector queried in between (as `queries` says); after each
+        restore every observable must be that of a fresh genotype with those alleles"""
+        case = {"kind": "reuse", "chain": [list(c) for c in chain], "queries": [list(q) for q in queries]}
+        ctx.evaluated()
+        g = Genotype(list(chain[0]))
+        for step, (al, q) in enumerate(zip(chain[1:], queries)):
+            for what in q:
+                if what == "index": g.get_index()
+                elif what == "hash": hash(g)
+                elif what == "state": g.__getstate__()
+                elif what == "vector": g.as_vector()
+                elif what == "str": str(g)
+            fresh = Genotype(list(al))
+            g.__setstate__(fresh.__getstate__())
+            srt = sorted(al)
+            obs = {"vector": list(g.as_vector()), "index": g.get_index(), "ploidy": g.get_ploidy(),
+                   "state": [int(x) for x in g.__getstate__()], "eq": bool(g == fresh), "lt": bool(g < fresh) or bool(fresh < g),
+                   "hash_eq": hash(g) == hash(fresh), "hom": bool(g.is_homozygous())}
+            exp = {"vector": srt[::-1], "index": rank(srt), "ploidy": len(srt), "state": [rank(srt), len(srt)], "eq": True,
+                   "lt": False, "hash_eq": True, "hom": bool(fresh.is_homozygous())}
+            if obs != exp:
+                diff = {k: (obs[k], exp[k]) for k in exp if obs[k] != exp[k]}
+                ctx.fail(f"an object restored to {srt} (step {step + 1} of re-using one object; queried {q} before) reports "
+                         f"{diff} (observed, expected)", case, key="geno-restore-into-used-object")
+                return
+        ctx.nontrivial(("reuse", tuple(tuple(c) for c in chain), tuple(tuple(q) for q in queries)))
 
     def do_enum(p, a):
         """all genotypes of ploidy p over a alleles: indices are exactly 0..count-1 in VCF order (no gaps)"""
@@ -351,6 +382,19 @@ def run(ctx):
         do_case(json.load(open(ctx.replay))["case"]); flush(); return
     for _, c in ctx.corpus():
         do_case(c)
+
+    # ---------------------------------------------------------------- restore into used objects
+    for _ in range((400 if ctx.quick else 6000) * ctx.scale):
+        n = rng.randrange(2, 5)
+        chain, queries = [], []
+        for i in range(n):
+            pl = rng.choice([1, 2, 2, 2, 3, 4, 6]) if rng.random() < 0.85 else rng.randrange(0, 15)
+            na = rng.choice([2, 2, 3, 4, 6]) if rng.random() < 0.85 else rng.randrange(1, 17)
+            al = [rng.randrange(na) for _ in range(pl)]
+            rng.shuffle(al)
+            chain.append(al)
+            queries.append(rng.sample(["index", "hash", "state", "vector", "str"], rng.randrange(0, 4)))
+        do_reuse(chain, queries[:-1])
 
     # ---------------------------------------------------------------- F10 observation: pickle / copy
     for al in ([0, 1], [2, 0, 1, 1], []):
